@@ -12,6 +12,7 @@ import (
 
 	"github.com/gofiber/fiber/v3"
 	fsess "github.com/gofiber/fiber/v3/middleware/session"
+	"github.com/valyala/fasthttp"
 
 	"verifharness/internal/drive"
 	"verifharness/internal/ev"
@@ -44,12 +45,19 @@ type hist struct {
 	parent  *hist  // race mode: this history is one client's view of the parent's app
 	name    string // race mode: script name of this client
 	noReset bool   // race mode: Store.Reset would end other clients' sessions
-	trace   []string
-	tag     string
-	nid     int
-	stopped bool
-	nontriv bool
-	sigs    map[string]bool
+	// conns are fasthttp.RequestCtx objects reused across requests exactly like the server reuses
+	// one per keep-alive connection (and pools them between connections): request buffers are
+	// overwritten in place, so anything that kept a reference into them is exposed.
+	conns    []*fasthttp.RequestCtx
+	connR    *gen.Rand                 // which conn serves the next request (nil: scripted via nextConn)
+	nextConn int                       // scripted: 1-based conn of the next request, 0 = fresh RequestCtx
+	pool     chan *fasthttp.RequestCtx // race mode (on the parent): shared pool of reused RequestCtx
+	trace    []string
+	tag      string
+	nid      int
+	stopped  bool
+	nontriv  bool
+	sigs     map[string]bool
 }
 
 func newHist(e *ev.Env, c *ev.Case, cfg cfgT, kinds []string, tag string) *hist {
@@ -91,6 +99,47 @@ func newHist(e *ev.Env, c *ev.Case, cfg cfgT, kinds []string, tag string) *hist 
 	h.app = app
 	h.d = drive.NewDirect(app)
 	return h
+}
+
+// useConns makes the history serve its requests through n reused RequestCtx objects.
+func (h *hist) useConns(n int, r *gen.Rand) {
+	h.conns = nil
+	for i := 0; i < n; i++ {
+		h.conns = append(h.conns, &fasthttp.RequestCtx{})
+	}
+	h.connR = r
+}
+
+func reuseCtx(fctx *fasthttp.RequestCtx) {
+	// what fasthttp's serve loop does between two requests of a connection
+	fctx.Response.Reset()
+	fctx.ResetUserValues()
+}
+
+// drive runs the request on a fresh or on a reused RequestCtx; returns which one ("-" = fresh).
+func (h *hist) drive(dr *drive.Req) (*drive.Resp, string) {
+	if h.parent != nil && h.parent.pool != nil {
+		fctx := <-h.parent.pool
+		defer func() { h.parent.pool <- fctx }()
+		reuseCtx(fctx)
+		return h.d.DoCtx(fctx, dr), "pooled"
+	}
+	k := -1
+	if len(h.conns) > 0 {
+		if h.connR != nil {
+			if !h.connR.Chance(1, 8) {
+				k = h.connR.Intn(len(h.conns))
+			}
+		} else if h.nextConn > 0 && h.nextConn <= len(h.conns) {
+			k = h.nextConn - 1
+		}
+	}
+	if k < 0 {
+		return h.d.Do(dr), "-"
+	}
+	h.e.Stat("requests-on-reused-requestctx", 1)
+	reuseCtx(h.conns[k])
+	return h.d.DoCtx(h.conns[k], dr), fmt.Sprint(k + 1)
 }
 
 func (h *hist) close() {
@@ -210,8 +259,12 @@ func (h *hist) do(rq *request) bool {
 	}
 	line += " ops=[" + strings.Join(ops, "; ") + "]"
 	h.trace = append(h.trace, line)
-	if e.Guard(h.c, "panic|session", h.detail(), func() { resp = h.d.Do(h.buildReq(rq)) }) {
+	conn := "-"
+	if e.Guard(h.c, "panic|session", h.detail(), func() { resp, conn = h.drive(h.buildReq(rq)) }) {
 		return false
+	}
+	if conn != "-" {
+		h.trace[len(h.trace)-1] += " conn=" + conn
 	}
 	e.Eval(1)
 	e.Stat("requests", 1)
@@ -694,6 +747,16 @@ func runGenerated(e *ev.Env, c *ev.Case) {
 	startClock()
 	h := newHist(e, c, cfg, genKinds(r), r.StringFrom("0123456789abcdef", 6))
 	defer h.close()
+	// connection reuse and key retention are drawn from their own stream (c.R stays as it was)
+	xr := gen.Derive(e.Seed, "session-conn", c.ID)
+	if n := xr.PickW(4, 3, 3); n > 0 {
+		h.useConns(n, xr.Split())
+		e.Stat("histories-with-reused-requestctx", 1)
+	}
+	if h.vs != nil && xr.Bool() {
+		h.vs.KeepKeyRef = true // keep the caller's key string like the bundled memory storage does
+		e.Stat("histories-vstore-keepkeyref", 1)
+	}
 	apiBias := r.Intn(3) // 0 middleware only, 1 store API only, 2 mixed
 	nreq := r.Range(1, 10)
 	if r.Chance(1, 6) {
